@@ -21,11 +21,13 @@ type symGen struct {
 	// mode 1 ("sparse"): exactly one of the top-level pointer/slice/map/interface
 	// positions is populated (or none); pick says which, pos counts positions.
 	pick, pos int
+	// json: values as obtained by decoding JSON (`any` holds float64, never int64)
+	json bool
 }
 
 func (e *Engine) symValue(t types.Type, name string, depth, mode int) Value {
-	g := &symGen{e: e, name: name, mode: mode}
-	if mode == 1 {
+	g := &symGen{e: e, name: name, mode: mode & 1, json: mode&2 != 0}
+	if mode&1 == 1 {
 		n := countTop(t)
 		g.pick = g.choose(n + 1)
 	}
@@ -80,7 +82,7 @@ func (g *symGen) drawInt(bits int, unsigned bool) Value {
 }
 
 func (g *symGen) drawStr() Value {
-	alts := []string{"a", "b", "c"}
+	alts := []string{"", "a", "b"}
 	idx := g.e.freshVar("s_"+g.name, "Int")
 	g.e.solver.Assert(tAnd(tBin("<=", tInt(0), idx, "Bool"), tBin("<", idx, tInt(int64(len(alts))), "Bool")))
 	u := &UStr{}
@@ -197,6 +199,9 @@ func (g *symGen) gen(t types.Type, depth int, top bool) Value {
 		case 0:
 			return Iface{T: types.Typ[types.String], V: g.drawStr()}
 		case 1:
+			if g.json {
+				return Iface{T: types.Typ[types.Float64], V: g.e.convert(g.drawInt(64, false), types.Typ[types.Int64], types.Typ[types.Float64])}
+			}
 			return Iface{T: types.Typ[types.Int64], V: g.drawInt(64, false)}
 		case 2:
 			return Iface{T: types.Typ[types.Bool], V: g.drawBool()}
